@@ -7,6 +7,7 @@ package main
 import (
 	"fmt"
 	"hash/fnv"
+	"strconv"
 	"strings"
 )
 
@@ -148,13 +149,30 @@ func (s *sink) probe(c Case) {
 	}
 }
 
-// hangSub: class sub-key of a watchdog hit: generator family and generator name (no depth / size).
+// hangSub: class sub-key of a watchdog hit (or child crash): generator family and generator name,
+// without the variant suffix ("itemref-fan+itemid" is the document family itemref-fan with one more
+// attribute: the same defect class) and without the depth / size. A known class (quadratic paths that
+// exceed the budget on hundreds of kilobytes of adversarial nesting) must not hide a decoder that
+// hangs on a *small* member of the same family: parameters below 1000 get a class of their own.
 func hangSub(c Case) string {
 	n := c.Name
+	small := false
 	if i := strings.Index(n, "@"); i > 0 {
+		if p, err := strconv.Atoi(n[i+1:]); err == nil && p < 1000 {
+			small = true
+		}
 		n = n[:i]
 	}
+	if i := strings.Index(n, "+"); i > 0 {
+		n = n[:i]
+	}
+	if fam := strings.TrimSuffix(c.Family, "+shrunk"); small && (fam == "nest" || fam == "growth") {
+		n += "(parameter<1000)"
+	}
 	fam := strings.TrimSuffix(c.Family, "+shrunk")
+	if fam == "growth" { // the growth ladder runs the nest generators at small parameters
+		fam = "nest"
+	}
 	if fam == "nest" || fam == "huge" {
 		return fam + ":" + n
 	}
